@@ -172,7 +172,7 @@ def run(ctx, jobs=None):
     with cf.ProcessPoolExecutor(max_workers=jobs or min(16, os.cpu_count() or 4), initializer=guard_resources, initargs=(3,)) as ex:
         for name, status, keys in ex.map(_run_one, [(pid, n) for n in names], chunksize=1):
             res[name] = (status, keys)
-    caught = noverdict = skipped = 0
+    caught = noverdict = skipped = missed_known = 0
     lost = []
     for n in names:
         status, keys = res[n]
@@ -187,9 +187,12 @@ def run(ctx, jobs=None):
             noverdict += 1
             if want == 1:
                 lost.append((n, "recorded as reported (exit 1), now no verdict"))
+        elif want == 0:
+            missed_known += 1   # recorded as not reported by this check (DESIGN section 18 says why); nothing to regress
         else:
             lost.append((n, "recorded exit %s, now silent" % want))
     ctx.extra.update({"seeded_changes_replayed": len(names) - skipped, "seeded_changes_reported": caught,
-                      "seeded_changes_no_verdict": noverdict, "seeded_changes_skipped": skipped})
+                      "seeded_changes_no_verdict": noverdict, "seeded_changes_skipped": skipped,
+                      "seeded_changes_recorded_as_not_reported": missed_known})
     if lost:
         raise AnalysisError("seed regression: %s" % lost)
